@@ -117,14 +117,14 @@ func kindName(k lexer.TokenKind) string {
 }
 
 type realLexResult struct {
-	Toks     []reflex.Tok // lifted into the reference's token type
-	Kinds    []lexer.TokenKind
-	Err      string // message of the lexer error, "" if none
-	ErrIdx   int    // rune index the error span starts at
-	Panic    string
-	Site     string
-	NoEOF    bool
-	Calls    int
+	Toks   []reflex.Tok // lifted into the reference's token type
+	Kinds  []lexer.TokenKind
+	Err    string // message of the lexer error, "" if none
+	ErrIdx int    // rune index the error span starts at
+	Panic  string
+	Site   string
+	NoEOF  bool
+	Calls  int
 }
 
 // realLex drives lexer.Lexer.NextToken over src until EOF, an error, or a token budget that
